@@ -49,6 +49,8 @@ def renamed_programs(quick):
     from lib.gen_c import RENAMES
     out = {}
     for n, (k, p) in enumerate(directed_programs().items()):
+        if k.startswith('R_') or k.startswith('Q_'):
+            continue      # (precedence / constant-operand shapes: the names play no part there)
         for r in ([n % len(RENAMES)] if quick and not k.startswith('N_') else range(len(RENAMES))):
             q = copy.deepcopy(p)
             q.rename = RENAMES[r]
